@@ -388,7 +388,7 @@ def stage_a(ctx):
     def one(job):
         name, cfgp, cov, heavy = job
         return job, tlc.run('TrustChain', cfgp, workers=workers if heavy else 1, heavy=heavy, coverage=cov, tag='c14a')
-    with ThreadPoolExecutor(max_workers=2) as ex:
+    with ThreadPoolExecutor(max_workers=ctx.pick(3, 2)) as ex:
         res = list(ex.map(one, jobs))
     for (name, cfgp, cov, heavy), r in res:
         ctx.add_tlc('TrustChain %s' % name, r)
@@ -446,7 +446,7 @@ def run(ctx):
     if 'B' in ctx.stages or 'C' in ctx.stages:
         learn = {'has': set(), 'hasnot': set()}
         stage_b(ctx, 'learn-cache', consts(INSTS2, 2, 'WClean', ALL_DEVS, anchors='MCAnchorsGood'), pool, cache, ['ec'],
-                max_paths=ctx.pick(120, 400), learn=learn)
+                max_paths=ctx.pick(80, 400), learn=learn)
         stage_b(ctx, 'learn-loop', consts(['v1'], 1, 'WLoop', ALL_DEVS, anchors='MCAnchorsGood'), pool, cache, ['ec'], learn=learn)
         stage_b(ctx, 'learn-ed', consts(['v1'], 1, 'WEd', ALL_DEVS, anchors='MCAnchorsGood'), pool, cache, ['ed'], learn=learn)
         if learn['has'] & learn['hasnot']:
@@ -459,19 +459,19 @@ def run(ctx):
         kts = ['ec'] * 9 + ['rsa'] if ctx.quick else ['ec'] * 5 + ['rsa']
         # every world (depth, deviation, link), one validation at a time, both instances, good and bad anchors
         stage_b(ctx, 'main', consts(INSTS2, ctx.pick(1, 2), ctx.pick('W3', 'W4'), unk, has), pool, cache, kts,
-                max_paths=ctx.pick(250, 8000))
+                max_paths=ctx.pick(200, 8000))
         # orders / interleavings of up to 3 validations by two instances on a few worlds
         stage_b(ctx, 'orders', consts(INSTS2, ctx.pick(2, 3), 'WOrd', unk, has, anchors='MCAnchorsGood'), pool, cache, ['ec'],
-                max_paths=ctx.pick(150, 5000))
+                max_paths=ctx.pick(100, 5000))
         # fetch fault, Heal, then the same / another packet of the chain again, on the same and on the other instance
         stage_b(ctx, 'heal', consts(INSTS2, ctx.pick(2, 3), 'WHeal', unk, has, anchors='MCAnchorsGood', maxheal=1), pool, cache, ['ec'],
-                max_paths=ctx.pick(150, 4000))
+                max_paths=ctx.pick(120, 4000))
         stage_b(ctx, 'ed25519', consts(INSTS2, 2, 'WEd', unk, has, anchors='MCAnchorsGood'), pool, cache, ['ed'],
                 max_paths=ctx.pick(60, 400))
         ctx.note('stage B wall %.0fs (incl. learning)' % (time.time() - t1))
     t2 = time.time()
     if 'C' in ctx.stages:
-        n = ctx.pick(60, 1500)
+        n = ctx.pick(50, 1500)
         recs = []
         for i in range(n):
             world = random_world(ctx.rng)
